@@ -53,7 +53,9 @@ def _shift(node: AST, dl: int, dc0: int, first_line: int) -> AST:
     """Shift positions of all nodes by `dl` lines and, for nodes on `first_line` (1-based, wrapper coords), `dc0` byte
     columns."""
 
-    for n in ast.walk(node):
+    nodes = node if isinstance(node, list) else [node]
+
+    for n in (m for top in nodes if isinstance(top, ast.AST) for m in ast.walk(top)):
         if hasattr(n, 'lineno') and n.lineno is not None:
             if n.lineno == first_line:
                 n.col_offset += dc0
@@ -100,7 +102,7 @@ def balanced(src: str) -> bool:
                         return False
 
     except (tokenize.TokenError, IndentationError, SyntaxError):
-        return depth == 0 and False
+        pass  # e.g. EOF after a backslash continuation or inside an open bracket: the count so far decides
 
     return depth == 0
 
